@@ -17,6 +17,7 @@ RULE = ("Hypothesis programs (1-3 files, optional include) with 0-3 faults plant
         "error-severity fault; (2) exit status != 0 iff the run printed >= 1 error-severity diagnostic; (3) on failure the directory "
         "snapshot is unchanged, on success exactly the predicted files exist and hold the container of the image; (4) across the "
         "configurations of one program: same status, same files, same bytes. Plus the output-phase fault class (unwritable output). "
+        "Plus every catalogued kind on its own in a three-line program (both formats, with and without --lst). "
         "Non-trivial: >= 1 planted fault or >= 1 enabled warning that fires; distinct = (program, configuration).") % (len(mutate.FAULTS), len(mutate.WARNINGS))
 ASSUMPTIONS = ["severity of each catalogued kind (E/C/W) as calibrated in vf/mutate.py", "a forked child calling main_cli shows the exit status a shell sees"]
 
@@ -257,10 +258,35 @@ def normalize_lst(b):
 def shards(tier):
     k = 16
     per = (6000 if tier == "quick" else 100000) // 4 // k
-    return [{"part": "random", "i": i, "examples": max(per, 10)} for i in range(k)]
+    return [{"part": "random", "i": i, "examples": max(per, 10)} for i in range(k)] + [{"part": "every-kind", "i": i, "n": 4} for i in range(4)]
 
 
 def run_shard(spec, ctx):
+    if spec["part"] == "every-kind":
+        # every catalogued kind on its own in a small program: both report formats, with and without a listing
+        kinds = [f for f in mutate.FAULTS + mutate.WARNINGS if f.where not in ("utf8", "top-after-link")]
+        for j, f in enumerate(kinds):
+            if j % spec["n"] != spec["i"]:
+                continue
+            pre, line, post = f.render(900 + j)
+            line, _ = mutate.strip(line)
+            lines = ["\tnop", f"hq{j}:\tclr (r1)+"]
+            if f.where == "adjacent":
+                lines[1:1] = pre + [line] + post
+            else:
+                lines[1:1] = [line]
+                lines[0:0] = pre
+                lines += post
+            for lst in (False, True):
+                c = {"kind": "c07", "files": ["\n".join(lines) + "\n"], "nmain": 1, "include": False, "planted": [f.kind], "outputs": ["o-bin"], "lst": lst,
+                     "configs": [{"format": "graphical", "W": []}, {"format": "bare", "W": ["all"]}], "io_fault": False, "bad_input": None}
+                fails, info = judge(c)
+                ctx.case(repr(c), True, ["every-kind", "sev-" + f.sev, "kind:" + f.kind, "status-" + str(info["status"])], sample={"planted": [f.kind], "lst": lst, "p0": c["files"][0]} if j % 37 == 5 and lst else None,
+                         evaluations=2)
+                for sig, msg in fails[:1]:
+                    ctx.fail(sig + ":" + f.kind, msg, c)
+        return
+
     def check(c):
         fails, info = judge(c)
         sev = [mutate.BY_KIND[k].sev for k in c["planted"]]
